@@ -65,7 +65,7 @@ func sMergeSpecs(specs []*sSpec, drops [][]bool) (*sSpec, [][]uint64) {
 
 // vDropBitmap draws a deletion set for n documents: nil, or a bitmap of symbolic membership.
 func vDropBitmap(name string, n int) (*roaring.Bitmap, []bool) {
-	if vBool(name + "nil") {
+	if vParam("noDrops", 0) == 1 || vBool(name+"nil") {
 		return nil, nil
 	}
 	bm := roaring.New()
